@@ -25,10 +25,19 @@ class CellTranslator(AbstractTranslator):
         if not context.get_cell(cell):
             if isinstance(cell.value, str) and cell.value.find('=') == 0:
                 from excel2pycl.src.ast_builder import AstBuilder
+                from excel2pycl.src.exceptions import E2PyclParserException
                 from excel2pycl.src.lexer import Lexer
-                lexer = Lexer.parse(cell.value, in_cell=cell)
-                ast = AstBuilder.parse(lexer, in_cell=cell)
-                code = EntryPointTokenTranslator.translate(ast, excel, context)
+                # a cell is registered in the context only after its formula has been translated, so a cell met again
+                # while its own formula is still being translated depends on itself
+                if cell.uid in context.cells_in_progress:
+                    raise E2PyclParserException(f'Circular reference: {cell} depends on itself')
+                context.cells_in_progress.add(cell.uid)
+                try:
+                    lexer = Lexer.parse(cell.value, in_cell=cell)
+                    ast = AstBuilder.parse(lexer, in_cell=cell)
+                    code = EntryPointTokenTranslator.translate(ast, excel, context)
+                finally:
+                    context.cells_in_progress.discard(cell.uid)
             else:
                 code = repr(cell.value) if cell.value is not None else 'self.EmptyCell()'
             context.set_cell(cell, code)
